@@ -118,3 +118,24 @@ void h_reg_put(void)
 	__CPROVER_assert(0, "canary");
 #endif
 }
+
+/* ---- reg_get: what a register name reads (C08: "what a later put of that register inserts") ---- */
+void h_reg_get(void)
+{
+	int c = nondet_int(), ln = -7;
+	GHOST_INIT();
+	__CPROVER_assume(0 <= c && c < 256 && c != ';' && c != '#' && c != '^');
+	char *t0 = nondet_bool() ? malloc(1) : (char *) 0;
+	char *tc = nondet_bool() ? malloc(1) : (char *) 0;
+	bufs[0] = t0; lnmode[0] = nondet_int();
+	if (c != 0) {
+		bufs[c] = tc; lnmode[c] = nondet_int();
+	}
+	int want = c == '"' ? 0 : c;
+	char *r = reg_get(c, &ln);
+	H_ASSERT(r == bufs[want] && ln == lnmode[want], "reg_get: a register name reads that register's text and line-wise flag (\" is the unnamed register), exactly what reg_put stored");
+	H_ASSERT(reg_get(c, (int *) 0) == bufs[want], "reg_get: the flag is optional");
+#ifdef CANARY
+	__CPROVER_assert(0, "canary");
+#endif
+}
